@@ -1129,6 +1129,46 @@ func waitScAfterClose(e *waitEnv, r *waitResult, sc *waitScenario) {
 	}
 }
 
+// Two goroutines close one session at the same time while the session is busy (its mutex is held by
+// somebody else for a moment): exactly one of them closed it, the other one is the second Close
+// and reports an error - "second" is not a matter of how close in time the two calls are.
+func waitScCloseTwiceConcurrent(e *waitEnv, r *waitResult, sc *waitScenario) {
+	for round := 0; round < 6; round++ {
+		srv, cli := e.hub.listen(fmt.Sprintf("srvcc%d", round)), e.hub.listen(fmt.Sprintf("clicc%d", round))
+		_ = srv
+		s, err := NewConn3(9000+waitConvCounter.Add(1), waitAddr(fmt.Sprintf("srvcc%d", round)), nil, 0, 0, cli)
+		if err != nil {
+			r.setupErr = err
+			return
+		}
+		s.mu.Lock()
+		errs := make(chan error, 2)
+		for i := 0; i < 2; i++ {
+			go func() { errs <- s.Close() }()
+		}
+		time.Sleep(15 * time.Millisecond) // both callers are inside Close, parked on the session mutex at the latest
+		s.mu.Unlock()
+		nils := 0
+		for i := 0; i < 2; i++ {
+			select {
+			case err := <-errs:
+				if err == nil {
+					nils++
+				}
+			case <-time.After(waitMargin):
+				r.violate("after-close:close-blocks", "%s: Close did not return within %v", e.name, waitMargin)
+				return
+			}
+		}
+		r.check("of two concurrent Close calls exactly one succeeds")
+		if nils != 1 {
+			r.violate("after-close:second-close-nil", "%s: two goroutines closed one session concurrently (its mutex was busy for 15 ms): %d of them were told that they closed it", e.name, nils)
+			return
+		}
+	}
+	r.Outcome = []string{"closed"}
+}
+
 func waitScAfterCloseListener(e *waitEnv, r *waitResult, sc *waitScenario) {
 	err1 := e.l.Close()
 	r.check("first Close succeeds")
@@ -1240,6 +1280,7 @@ func waitCatalogue(thorough bool, rng *vrng) []*waitScenario {
 	}
 	add("after-close", "Read", 1, true, waitScAfterClose)
 	add("after-close", "Accept", 1, false, waitScAfterCloseListener)
+	add("close-twice-concurrent", "Read", 1, false, waitScCloseTwiceConcurrent)
 	return out
 }
 
